@@ -128,6 +128,7 @@ Fixpoint normalize (f : func) : func :=
 Inductive err :=
 | EEof | EMagic | EVersion | EConstTag | ENestedIdx | EUtf8 | EUtf8Global
 | ELimit (what : N)        (* 0 depth 1 name 2 consts 3 code 4 nested 5 upvals 6 lines 7 globals 8 global-name 9 string *)
+| EPtr                     (* InvalidPointer *)
 | EFuel.
 
 (* s_alloc: sum of the capacities requested so far; s_max: largest single request so far *)
@@ -245,9 +246,9 @@ Definition rd_const (dbg : bool) : M const :=
       bind (rd_le 4) (fun i => ret (const_of_word (v_nested i)))                 (* idx < 2^32 *)
     else if tag =? TAGR_PTR then
       bind (rd_le 8) (fun p =>
-        (* Value::ptr(p): debug_assert!(p <= PAYLOAD_MASK); release ORs the high bits in *)
-        if PAYLOAD_MASK <? p then (if dbg then crash else ret (const_of_word (v_ptr p)))
-        else ret (CPtr p))
+        (* payloads a NaN-boxed pointer cannot hold are rejected (since /repo 119b2d8; before,
+           Value::ptr's debug_assert panicked and release ORed the high bits into the tag) *)
+        if LIM_PTR <? p then fail EPtr else ret (CPtr p))
     else fail EConstTag).
 
 Definition marker_bad (nn : N) (c : const) : bool :=
